@@ -67,6 +67,11 @@ def cases(tier: str, seed: int) -> List[Dict[str, Any]]:
     from models.ops import OPS, default_cfg
 
     out = lattice_cases(tier, seed)
+    # ambient environment coordinates (default configuration and one dtype deviation per function)
+    for name, op in OPS.items():
+        for env in ("no_grad", "inference_mode", "default_dtype=float64", "default_dtype=bfloat16", "default_dtype=float16"):
+            for dt in ("float64", "float32"):
+                out.append({"kind": "probe", "op": name, "cfg": dict(default_cfg(op), dtype=dt), "seed": seed, "env": env})
     for name, cfgs in TINY.items():
         for o in cfgs:
             cfg = dict(default_cfg(OPS[name]), **o)
@@ -162,7 +167,13 @@ def run_case(case: Dict[str, Any]) -> Dict[str, Any]:
         tol = 2e-5
     dev = deviations(op.name, cfg)
     ident = f"{op.name}|dev={'+'.join(dev) or 'none'}"
-    r = probe(op, cfg, case["seed"])
+    if case.get("env"):
+        from models.probe import probe_env
+
+        ident += "|env=" + case["env"]
+        r = probe_env(op, cfg, case["seed"], case["env"])
+    else:
+        r = probe(op, cfg, case["seed"])
     if "skipped" in r:
         return {"skipped": r["skipped"]}
     if "unit_exc" in r:
